@@ -6,6 +6,7 @@ import (
 	_ "github.com/anishathalye/porcupine"
 	_ "github.com/conduitio/conduit/pkg/conduit/exitcode"
 	_ "github.com/conduitio/conduit/pkg/connector"
+	_ "github.com/conduitio/conduit/pkg/http/api"
 	_ "github.com/conduitio/conduit/pkg/http/api/status"
 	_ "github.com/conduitio/conduit/pkg/lifecycle"
 	_ "github.com/conduitio/conduit/pkg/lifecycle-poc"
@@ -16,5 +17,4 @@ import (
 	_ "github.com/conduitio/conduit/pkg/processor"
 	_ "github.com/conduitio/conduit/pkg/provisioning"
 	_ "github.com/conduitio/conduit/pkg/registry"
-	_ "github.com/conduitio/conduit/pkg/http/api"
 )
